@@ -69,3 +69,23 @@ Theorem C17_backends_agree :
       run_ops sp_step sp_init ops.
 Proof. exact backends_agree. Qed.
 Print Assumptions C17_backends_agree.
+
+From CV Require Import KV.StackProofs.
+
+(** "the write-caching wrapper (over any backend)": the backends that answer every operation
+    like the specification (through some simulation relation [T]) are closed under wrapping in
+    a CacheDB - so the wrapper may also sit on another wrapper, to any depth. *)
+Theorem C17_cachedb_preserves_refinement :
+  ∀ (B : backend) (T : bst B → sp → Prop),
+    bsim B sp_backend T → bsim (cache_backend B) sp_backend (wrapT T).
+Proof. exact cache_preserves_refinement. Qed.
+Print Assumptions C17_cachedb_preserves_refinement.
+
+(** two wrappers over MemDB return the results of the specification on every sequence *)
+Theorem C17_cachedb_stacked_refines_spec :
+  ∀ ops,
+    run_ops (cache_step (cache_backend mem_backend))
+            (cache_init (cache_backend mem_backend) (cache_init mem_backend mem_init)) ops =
+    run_ops sp_step sp_init ops.
+Proof. exact cachedb_stacked_refines_spec. Qed.
+Print Assumptions C17_cachedb_stacked_refines_spec.
